@@ -115,6 +115,12 @@ func (s *sim) waitCopies(r *request, n int, d time.Duration) bool {
 func (s *sim) closePipe(p *vt.Pipe) {
 	before := s.ev.Detached()
 	s.closes = append(s.closes, closeEv{time.Now(), p})
+	if s.R > 0 && s.R <= time.Second {
+		// With retry timers firing every few tens of milliseconds any connection may be holding a
+		// copy that was handed to it but not yet recorded when it is closed (of any context's
+		// request): the audit counts every close as a possible carrier loss.
+		s.maybeSwallowed[p] = true
+	}
 	_ = p.Close()
 	if !s.ev.WaitDetached(before+1, 3*time.Second) {
 		s.fail("no-detach", "closed pipe %s not detached within 3s", p.Name)
@@ -150,6 +156,9 @@ func (s *sim) audit(r *request) {
 	}
 	carried := map[*vt.Pipe]bool{}
 	for _, c := range s.closes {
+		if c.at.Before(r.t0) {
+			continue // closed before this request existed: it cannot have held a copy of it
+		}
 		evs = append(evs, ev{at: c.at, close: true, pipe: c.pipe})
 	}
 	// closes sort before copies at equal time (lenient)
